@@ -146,6 +146,31 @@ theorem after_failure_not_running (names : Nat → Name) (evs : List Event)
   have := (key evs init ⟨by simp [Stopped, init], by simp [init]⟩).1 h
   simp [isRunning, this]
 
+/-- **after_failure (not running as soon as the failure is reported).**  The runner does not wait
+for the client process to go away: whatever the process does after the failure (it may linger for
+any time, `pExit` is an event of the environment that need never come) — once later sends are
+refused with the reader's reason (`c.err` holds it) `isRunning()` is false, the single atomic step
+between the two stores excepted. -/
+theorem failure_reported_not_running (names : Nat → Name) (evs : List Event)
+    (herr : (run names init evs).err = some .fail) (hpc : (run names init evs).rpc ≠ .failTerm) :
+    isRunning (run names init evs) = false := by
+  have hr : Reported (run names init evs) :=
+    run_preserves names Reported (fun s s' e _ h hs => reported_step names s s' e h hs) evs init
+      (reachable_inv names []) (by simp [Reported, init])
+  rcases hr herr with h | h
+  · exact absurd h hpc
+  · simp [isRunning, h]
+
+/-- **after_failure (error callbacks see a stopped client).**  The completion callbacks that report
+a failure of the output stream are invoked by the final drain, which comes after the abort: at
+that moment — and when the reader has finished (`waitForResponses` passes `<-c.done`) —
+`isRunning()` is already false, although the process may still be there (no hypothesis on `proc`). -/
+theorem failure_callbacks_not_running (names : Nat → Name) (evs : List Event)
+    (hab : (run names init evs).aborted = true)
+    (_hpc : (run names init evs).rpc = .draining ∨ (run names init evs).rpc = .done) :
+    isRunning (run names init evs) = false :=
+  after_failure_not_running names evs (Or.inl hab)
+
 /-- The exit of the process is always noticed: the hook is enabled until it has run. -/
 theorem exit_hook_enabled (names : Nat → Name) (s : State) (h : s.proc ≠ .running) (hr : s.hookRan = false) :
     (step names s .pHook).isSome = true := by
@@ -281,6 +306,17 @@ def demoNames : Nat → Name := fun i => 10 + i
 example : let s := run demoNames init demoFail
     s.rpc = .done ∧ s.spc 0 = .ret .ok ∧ s.spc 1 = .ret .ok ∧ s.spc 2 = .ret (.err .fail) ∧
     cbsOf s 0 = [none] ∧ cbsOf s 1 = [some 11] ∧ cbsOf s 2 = [] ∧ isRunning s = false ∧ s.aborted = true := by
+  decide
+
+/-- the hypotheses of `failure_reported_not_running` / `failure_callbacks_not_running` are
+satisfiable with a client that lingers: garbage, the runner aborts, the process never exits — the
+pending request is failed by the drain while `proc = running`, and `isRunning()` is false. -/
+def demoLinger : List Event :=
+  [.sStart 0, .sLock 0, .sRegister 0, .sWriteOk 0, .rRecvBad, .rSetErr, .rTerminate, .rAbort, .rCloseSend]
+
+example : let s := run demoNames init demoLinger
+    s.err = some .fail ∧ s.rpc = .draining ∧ s.aborted = true ∧ s.proc = .running ∧ s.hookRan = false ∧
+    isRunning s = false ∧ (step demoNames s .rDrain).map (fun s' => cbsOf s' 0) = some [none] := by
   decide
 
 /-- the hypotheses of `after_failure_refused` are satisfiable -/
